@@ -1,6 +1,6 @@
 (* C16 property theorems: the sheet collection stays consistent over every operation history. *)
 From VF Require Import Base.Prelude Generated.Consts C16.Model C16.Proofs.
-From VF Require Import C16.Names.
+From VF Require Import C16.Names C16.Frame.
 
 Theorem C16_inv : forall ops,
   let wb := wrun ops init_wb in
@@ -51,3 +51,17 @@ Example C16_ex :
                   WDelete [115;104;101;101;116;49]; WRename [83;50] [83;104;101;101;116;49]] init_wb in
   map (fun s => (w_name s, w_state s)) (sheets wb) = [([83;104;101;101;116;49], 0); ([83;50], 1)].
 Proof. vm_compute. reflexivity. Qed.
+
+(* "the content of sheets not targeted by an operation is unchanged": every sheet of the workbook after any operation
+   is a sheet of the workbook before it with the same sheet id and the same content, except the sheet NewSheet
+   appends (empty, the next id), the sheet a cell write lands on (fresh content, same id) and the target of CopySheet
+   (the source's content under its own id) *)
+Theorem C16_content_frame : forall wb o s', In s' (sheets (wstep wb o)) ->
+  from_old (sheets wb) s' \/
+  (exists n, o = WNew n /\ w_content s' = 0 /\ w_id s' = max_id (sheets wb) + 1) \/
+  (exists n, o = WTouch n /\ name_eqf (w_name s') n = true /\ w_content s' = fresh wb /\
+             exists s, In s (sheets wb) /\ w_id s = w_id s') \/
+  (exists a b sf s, o = WCopy a b /\ nth_error (sheets wb) (Z.to_nat a) = Some sf /\ w_content s' = w_content sf /\
+                    nth_error (sheets wb) (Z.to_nat b) = Some s /\ w_id s = w_id s').
+Proof. exact content_frame. Qed.
+Print Assumptions C16_content_frame.
